@@ -241,7 +241,7 @@ static void op_simple(const char *op)
 
 static void op_def(const char *op)
 {
-    int ncid = get_ncid(), err, id = -12345;
+    int ncid = strcmp(op, "copy_att") ? get_ncid() : -1, err, id = -12345;
     if (!strcmp(op, "def_dim")) { char *nm = argstr("name"); err = ncmpi_def_dim(ncid, nm, argireq("len"), &id); free(nm); }
     else if (!strcmp(op, "def_var")) {
         char *nm = argstr("name"); int nd; int *dimids = arglist_int("dimids", &nd);
